@@ -1,49 +1,28 @@
 //! C01 — members converge on the MIP-03 selected group state.
 
-use crate::plangen::{SetupOpts, Weights, plan_strategy};
 use crate::oracles;
-use crate::runner::{Args, CaseReport, Failure, Mode, RunPlan, Spec, Tier, drive, set_last_trace};
-use crate::world::{NoObserver, Plan, Regime, World};
+use crate::plangen::{SetupOpts, Weights, plan_strategy};
+use crate::props::common::{base_report, judge, run_plan};
+use crate::runner::{Args, CaseReport, Failure, Mode, RunPlan, Spec, Tier, drive};
+use crate::world::{NoObserver, Plan, Regime};
 
 pub fn exec(plan: &Plan, mode: Mode) -> Result<CaseReport, Failure> {
-    let mut w = World::new(&plan.setup).map_err(|e| Failure::new("setup-failed", e))?;
-    w.strict = mode == Mode::Strict;
-    let r = run(&mut w, plan, mode);
-    if r.is_err() {
-        set_last_trace(std::mem::take(&mut w.trace));
-    }
-    r
-}
-
-fn run(w: &mut World, plan: &Plan, mode: Mode) -> Result<CaseReport, Failure> {
     let mut obs = NoObserver;
-    for op in &plan.ops {
-        w.apply_op(op, &mut obs)?;
-    }
-    let passes = w.quiesce(&mut obs, 14)?;
-    if passes.is_none() {
-        return Err(Failure::new(
-            "no-fixpoint",
-            "re-offering every event to every member did not reach a fixed point within 14 passes",
-        ));
-    }
-    let chain = w.walk_chain()?;
-    let conv = oracles::check_convergence(w, &chain, mode)?;
-    let mut rep = CaseReport::default();
-    oracles::classify(w, &chain, &mut rep);
+    let mut fin = run_plan(plan, mode, &mut obs)?;
+    let conv = judge(&mut fin, |w, chain| oracles::check_convergence(w, chain, mode))?;
+    let mut rep = base_report(&fin);
     rep.excused = conv.excused.clone();
     for (k, v) in conv.skipped {
         *rep.counters.entry(format!("not-asserted:{k}")).or_insert(0) += v;
     }
     *rep.counters.entry("members-agreeing-with-reference".into()).or_insert(0) += conv.agreed as u64;
-    *rep.counters.entry("quiescence-passes".into()).or_insert(0) += passes.unwrap_or(0) as u64;
     Ok(rep)
 }
 
 pub fn main(args: &Args) -> i32 {
     let (cases, len, sql) = match args.tier {
-        Tier::Quick => (480, 8..45, 12),
-        Tier::Thorough => (16 * 1200, 8..70, 25),
+        Tier::Quick => (1600, 8..45, 12),
+        Tier::Thorough => (16 * 2500, 8..70, 25),
     };
     let opts = SetupOpts {
         sql_percent: sql,
